@@ -59,6 +59,7 @@ def make_operand(eng, shape, side, target, qname="Q"):
 
 def register(reg):
     register_rh(reg)
+    register_relation_sources(reg)
 
     def match_constant(I, self, node):
         """matchConstant: the value of a node known before sampling, else None (model of eval in the namespace)."""
@@ -415,4 +416,165 @@ def replay_rh(inputs, clause):
             f"base heading {g('baseHeading'):.4f}+{dB:.4f}, target heading {g('targetHeading'):.4f}+{dT:.4f}: relative heading {rh:.4f} lies in "
             f"[{g('lowerBound'):.4f}, {g('upperBound'):.4f}] but feasibleRHPolygon discards the overlapping cell pair"
         )
+    return None
+
+
+# =================================================================================================
+# which statements may feed pruning (scenic.core.requirements: PendingRequirement.compile -> inferRelationsFrom)
+#
+# C08: "every scene that satisfies all requirements and can be generated without pruning can still be generated with
+# it".  A relation recorded on an object is used by pruning as a fact about EVERY generated scene, so it may only be
+# inferred from a statement every generated scene must satisfy: a hard `require` (probability 1) evaluated on the
+# initial scene -- never from a soft `require[p]`, a `terminate when`, a `record` or a monitor.
+
+RQ = "scenic.core.requirements"
+
+
+def register_relation_sources(reg):
+    from pyvc.values import PDict, PList
+
+    from .common import repo_class
+
+    name = "requirements.PendingRequirement.compile"
+
+    def setup(I, env):
+        eng = I.eng
+        RT = repo_class(f"{RQ}:RequirementType")
+        kinds = [t.id for node in RT.node.body if isinstance(node, ast.Assign) for t in node.targets if isinstance(t, ast.Name)]
+        kind = kinds[eng.choose(len(kinds), "statement: " + " / ".join(kinds))]
+        # enum members: one heap object per member; `self.<member>` inside the enum's own (real) properties yields it
+        members = {}
+        for k in kinds:
+            m = PObj(RT, tag=f"RequirementType.{k}")
+            m.fields.update(name=k, value=I.get_attr(RT, k))
+            members[k] = m
+            reg.attr_hooks[(RT.full, k)] = lambda I2, obj, k=k: members[k]
+        prob = eng.fresh_real("prob")
+        eng.assume(sv_and(compare("<", 0, prob), compare("<=", prob, 1)))
+        on_initial_scene = eng.fresh_bool("condition is evaluated on the initial scene (no temporal operator below a top-level always)")
+        eng.input_syms.append(("statement", C.Const(None), kind))
+        eng.input_syms.append(("prob", C.Real(), prob))
+        cond = PObj("Proposition", tag="condition")
+        cond.fields["check_constrains_sampling"] = BuiltinFn("check_constrains_sampling", lambda: on_initial_scene)
+        ego = PObj(repo_class("scenic.core.distributions:Samplable"), tag="ego at the statement")
+        pend = PObj(repo_class(f"{RQ}:PendingRequirement"), tag="pending requirement")
+        pend.fields.update(
+            globalBindings=PDict(), closureBindings=PDict(), cells=PList([]), egoObject=ego, line=3, condition=cond,
+            ty=members[kind], name=None, prob=prob, recConfig=None,
+        )
+        syntax = ast.Name(id="the_requirement_syntax", ctx=ast.Load())
+        scen = PObj("DynamicScenario", tag="scenario")
+        scen.fields["objects"] = ()
+        calls = []
+        reg.models[f"{M}:inferRelationsFrom"] = lambda I2, node, ns, ego_, line: calls.append((node, ns, ego_, line))
+        reg.models["scenic.core.distributions:toDistribution"] = lambda I2, v: v
+
+        def compiled_ctor(I2, cls, args, kwargs):
+            o = PObj(cls, tag="compiled requirement")
+            o.fields.update(pending=args[0], closure=args[1], dependencies=args[2], proposition=args[3])
+            return o
+
+        reg.constructors[f"{RQ}:CompiledRequirement"] = compiled_ctor
+        env.vars.update(self=pend, namespace=PDict(), scenario=scen, syntax=syntax, _calls=calls, _kind=kind, _prob=prob, _init=on_initial_scene, _syntax=syntax)
+
+    def post(I, env, outcome):
+        eng = I.eng
+        if outcome[0] != "return":
+            return
+        calls, kind, prob, init, syntax = (env.vars[k] for k in ("_calls", "_kind", "_prob", "_init", "_syntax"))
+        eng.check(f"{name}#ensures.relations_inferred_at_most_once", len(calls) <= 1)
+        if not calls:
+            # shape taken from the code (guards the clause below against holding vacuously): a hard `require` on the
+            # initial scene is offered to the relation matcher
+            eng.check(f"{name}#frame.a_hard_require_on_the_initial_scene_is_offered_to_the_relation_matcher", sv_not(sv_and(kind == "require", compare("==", prob, 1), init)))
+        if calls:
+            # reached only on paths on which relations WERE recorded for pruning: the statement must be one that every
+            # generated scene satisfies
+            hard = sv_and(kind == "require", compare("==", prob, 1), init)
+            eng.check(f"{name}#ensures.relations_for_pruning_only_from_a_hard_require_on_the_initial_scene", hard)
+            node, ns, ego_, line = calls[0]
+            eng.check(f"{name}#ensures.relations_inferred_from_the_statement's_own_syntax_and_ego", node is syntax and ego_ is env.vars["self"].fields["egoObject"])
+
+    reg.add(
+        C.Contract(
+            f"{RQ}:PendingRequirement.compile",
+            params=dict(self=C.Const(None), namespace=C.Const(None), scenario=C.Const(None), syntax=C.Const(None)),
+            setup=setup,
+            post=post,
+            inline=["RequirementType.constrainsSampling"],
+            replay=replay_relation_sources,
+            note="every RequirementType (read from the real enum), symbolic probability in (0, 1], temporal or not; bindings empty (the relation matcher has its own contract)",
+            properties=("C08",),
+        ),
+        key=f"{RQ}:PendingRequirement.compile[relations-for-pruning]",
+    )
+    reg.trust("inferRelationsFrom (in PendingRequirement.compile)", "abstract: records relations on the ego and the matched objects (bound extraction is under contract: matchBoundsInner)")
+
+
+RELATION_SOURCE_PROGRAM = """
+r1 = PolygonalRegion([0@0, 10@0, 10@10, 0@10])      # first cell: heading 0 deg
+r2 = PolygonalRegion([20@0, 30@0, 30@10, 20@10])    # second cell: heading 90 deg
+vf = PolygonalVectorField("Foo", [[r1.polygons, 0], [r2.polygons, 90 deg]])
+union = r1.union(r2)
+ego = new Object in union, facing vf, with visibleDistance 100
+other = new Object in union, facing vf
+require (distance to other) <= 35
+{statement}
+"""
+
+
+def replay_relation_sources(inputs, clause):
+    """Real compiler: a statement that is NOT a hard requirement bounds the relative heading of `other`; compare the
+    relations recorded on the ego, the region its position is conditioned to, and generated scenes, with pruning off."""
+    if "only_from_a_hard_require" not in clause:
+        return None
+    import random
+
+    import scenic
+    import scenic.syntax.translator as T
+
+    kind = inputs.get("statement")
+    try:
+        prob = float(inputs.get("prob", 1))
+    except (TypeError, ValueError):
+        prob = 1.0
+    cond = "(relative heading of other) >= 60 deg"
+    if kind == "require":
+        if prob >= 1:
+            prob = 0.5
+        stmts = {f"require[{prob!r}] {cond}": None}
+    else:
+        stmts = {
+            "terminateWhen": f"terminate when {cond}", "terminateSimulationWhen": f"terminate simulation when {cond}",
+            "record": f"record {cond} as foo", "recordInitial": f"record initial {cond} as foo", "recordFinal": f"record final {cond} as foo",
+        }
+        if kind not in stmts:
+            return None  # `require monitor M()` has no condition syntax
+        stmts = {stmts[kind]: None}
+    from scenic.syntax.relations import RelativeHeadingRelation
+
+    for stmt in stmts:
+        src = RELATION_SOURCE_PROGRAM.format(statement=stmt)
+        old = T.usePruning
+        try:
+            T.usePruning = False
+            random.seed(5)
+            plain = scenic.scenarioFromString(src, mode2D=False)
+            T.usePruning = True
+            random.seed(5)
+            pruned = scenic.scenarioFromString(src, mode2D=False)
+        finally:
+            T.usePruning = old
+        rels = [r for r in pruned.objects[0]._relations if isinstance(r, RelativeHeadingRelation)]
+        n = 40
+        right_plain = sum(plain.generate(maxIterations=2000)[0].objects[0].position.x > 15 for _ in range(n))
+        right_pruned = sum(pruned.generate(maxIterations=2000)[0].objects[0].position.x > 15 for _ in range(n))
+        if rels and right_plain > 0 and right_pruned == 0:
+            return (
+                f"`{stmt}` (not a hard requirement) recorded {len(rels)} relative-heading relation(s) on the ego (bounds [{rels[0].lower:.4f}, {rels[0].upper:.4f}]); "
+                f"without pruning {right_plain}/{n} generated scenes have the ego in the right-hand cell (x > 15), with pruning its position is conditioned to "
+                f"{pruned.objects[0].position._conditioned} and {right_pruned}/{n} do"
+            )
+        if rels:
+            return f"`{stmt}` (not a hard requirement) recorded {len(rels)} relative-heading relation(s) on the ego for pruning"
     return None
